@@ -278,12 +278,15 @@ func (c *VirtualTable) BestIndex(input []IndexInput, order []OrderInput) (*Index
 	}
 	out.AlreadyOrdered = true
 	var desc *bool
+	if len(order) > 1 {
+		// ORDER BY with several terms: scan in key order and let SQLite sort
+		out.AlreadyOrdered = false
+		order = nil
+	}
 	for i := range order {
 		if order[i].Column != c.KeyCol {
 			out.AlreadyOrdered = false
-		}
-		if desc != nil {
-			return nil, errors.New("order specified multiple times")
+			continue
 		}
 		v := order[i].Desc
 		desc = &v
